@@ -154,7 +154,7 @@ def part_threads(sh, res):
         res.feat('max_preemptions_seen_%d' % min(switches, 9))
         for tid, (exp, inst) in enumerate(((e0, i0), (e1, i1))):
             if core.jsonable(slot[tid]) != exp:
-                res.violation('interleaving-changes-result', {'kind': 'threads', 'queries': [i0[0], i1[0]], 'schedule': trace, 'victim': tid, 'victim_query': inst[0]}, exp, slot[tid])
+                res.violation('interleaving-changes-result', {'kind': 'threads', 'queries': [i0[0], i1[0]], 'instances': [i0, i1], 'schedule': trace, 'victim': tid, 'victim_query': inst[0]}, exp, slot[tid])
         res.outcome(json.dumps(core.jsonable(slot), sort_keys=True)[:200])
     res.states += hi - lo
     res.sample({'queries': [i0[0], i1[0]], 'points': [n0, n1], 'interleavings': hi - lo})
@@ -337,5 +337,27 @@ def main(tier, seed):
 
 
 def replay(rep):
-    print('re-run the check; case:', rep['case'])
+    c = rep['case']
+    if c.get('kind') == 'threads' and 'instances' in c:
+        insts = [tuple(i) for i in c['instances']]
+        fresh = fresh_outcomes(insts)
+        slot = [None, None]
+        trace, pts = sched.run_schedule([threaded_body(insts[0], slot), threaded_body(insts[1], slot)], c['schedule'])
+        bad = 0
+        for tid in (0, 1):
+            same = core.jsonable(slot[tid]) == fresh[tid]
+            print('query %d: %s\n  alone      : %s\n  interleaved: %s\n  %s' % (tid, insts[tid][0], fresh[tid], core.jsonable(slot[tid]), 'same' if same else 'DIFFERENT'))
+            bad += 0 if same else 1
+        print('schedule:', trace)
+        return 1 if bad else 0
+    if c.get('kind') == 'history':
+        S = scenarios()
+        fresh = fresh_outcomes([S[i] for i in c['history']])
+        got = None
+        for k, ei in enumerate(c['history']):
+            got = solo(*S[ei])
+            print('step %d: %s -> %s' % (k + 1, S[ei][0], got))
+        print('last event alone in a fresh interpreter:', fresh[-1])
+        return 0 if got == fresh[-1] else 1
+    print('re-run the check; case:', c)
     return 0
